@@ -337,6 +337,15 @@ impl Previewer {
         self.content_lines.lock().iter().map(|l| l.stripped().to_string()).collect()
     }
 
+    /// is the item of the most recent request the very object given (both absent counts as the same)
+    pub fn verif_last_item_is(&self, item: &Option<Arc<dyn SkimItem>>) -> bool {
+        match (self.prev_item.as_ref(), item.as_ref()) {
+            (None, None) => true,
+            (Some(p), Some(n)) => Arc::ptr_eq(p, n),
+            _ => false,
+        }
+    }
+
     /// (vertical, horizontal) scroll offsets, 1-based as stored
     pub fn verif_scroll(&self) -> (usize, usize) {
         (
